@@ -17,8 +17,8 @@ theorem winsort_main {sortFn : List Ev → List Ev} (hf : IsSort sortFn) {n : Na
   cases evs with
   | nil => exact absurd rfl hne
   | cons e t =>
-    have := wsLoop_main hf hn (e :: t) (WS.init n) [] 0 [] 0 (init_inv hn) (fun _ h => by cases h)
-      hc hr (List.Perm.refl _) (by intro h; cases h)
+    have := wsLoop_main hf hn (e :: t) (WS.init n) [] 0 [] 0 true 0 (init_inv hn) (fun _ h => by cases h)
+      hc hr (List.Perm.refl _) (by intro h; cases h) rfl (by intro h; cases h) (by intro h; cases h)
     simp only [List.nil_append] at this
     exact ⟨fun hw => this.1 hw, fun hw => this.2 (Bool.eq_false_iff.2 hw)⟩
 
@@ -30,22 +30,6 @@ theorem checkLoop_eq (last : Nat) (l : List Ev) (back : Bool) :
     unfold checkLoop chainOk
     rw [ih]
     by_cases h : e.clock < last <;> simp [h]
-
-theorem chainOk_sorted {l : List Ev} : ∀ {last}, chainOk last l = true →
-    Sorted l ∧ ∀ e ∈ l, last ≤ e.clock := by
-  induction l with
-  | nil => intro _ _; exact ⟨List.Pairwise.nil, fun _ h => by cases h⟩
-  | cons a t ih =>
-    intro last h
-    unfold chainOk at h
-    split at h
-    · cases h
-    · rename_i hlt
-      obtain ⟨h1, h2⟩ := ih h
-      refine ⟨List.pairwise_cons.2 ⟨h2, h1⟩, fun e he => ?_⟩
-      rcases List.mem_cons.1 he with rfl | he
-      · omega
-      · have := h2 e he; omega
 
 theorem stepsMonotone_of_ssorted {l : List Ev} (h : SSorted l) :
     ∀ last : Int, (∀ e ∈ l, last ≤ skey e.clock) → stepsMonotone last l = true := by
@@ -60,5 +44,113 @@ theorem stepsMonotone_of_ssorted {l : List Ev} (h : SSorted l) :
     simp only [show ¬ (skey a.clock < last) by omega, if_false]
     exact ih h.2 _ h.1
 
+/-! ### the window condition asked of *every* non-empty region -/
+
+/-- The window condition without the in-place exemption (what the code
+    before `region_in_place` needed of every non-empty region). -/
+def windowOkAll (n : Nat) : St → List Ev → Nat → List Ev → Bool
+  | _, _, _, [] => true
+  | St.S, pre, _, e :: rest =>
+    windowOkAll n (if e.kind = Kind.start then St.U else St.S) (e :: pre) 0 rest
+  | St.U, pre, _, e :: rest =>
+    if e.kind = Kind.stop then windowOkAll n St.S (e :: pre) 0 rest
+    else windowOkAll n St.X (e :: pre) e.clock rest
+  | St.X, pre, m, e :: rest =>
+    if e.kind = Kind.stop then windowOkAt n m pre && windowOkAll n St.S (e :: pre) 0 rest
+    else windowOkAll n St.X (e :: pre) (min m e.clock) rest
+
+theorem windowOk_of_all (n : Nat) : ∀ (rest : List Ev) (st : St) (pre : List Ev) (m : Nat) (ip : Bool) (last : Nat),
+    windowOkAll n st pre m rest = true → windowOk n st pre m ip last rest = true := by
+  intro rest
+  induction rest with
+  | nil => intro st pre m ip last _; cases st <;> rfl
+  | cons e rest ih =>
+    intro st pre m ip last h
+    cases st with
+    | S =>
+      simp only [windowOkAll] at h
+      simp only [windowOk]
+      exact ih _ _ _ _ _ h
+    | U =>
+      simp only [windowOkAll] at h
+      simp only [windowOk]
+      split
+      · rename_i hk; rw [if_pos hk] at h; exact ih _ _ _ _ _ h
+      · rename_i hk; rw [if_neg hk] at h; exact ih _ _ _ _ _ h
+    | X =>
+      simp only [windowOkAll] at h
+      simp only [windowOk]
+      split
+      · rename_i hk
+        rw [if_pos hk, Bool.and_eq_true] at h
+        rw [Bool.and_eq_true, Bool.or_eq_true]
+        exact ⟨Or.inr h.1, ih _ _ _ _ _ h.2⟩
+      · rename_i hk; rw [if_neg hk] at h; exact ih _ _ _ _ _ h
+
+/-! ### a stream that is already sorted: no look back, nothing written -/
+
+/-- On a sorted input every closed region is in place, so the loop only
+    appends: no precondition on the regions, the ring or `sortFn`. -/
+theorem wsLoop_sorted_noop (sortFn : List Ev → List Ev) (trunc : Bool) :
+    ∀ (rest : List Ev) (s : WS) (pre : List Ev), Sorted (pre ++ rest) → s.done = pre →
+      (s.st = St.U → s.opn < s.done.length) → (s.st = St.X → s.opn < s.done.length) →
+      (wsLoop sortFn trunc s rest).out = pre ++ rest ∧
+      (wsLoop sortFn trunc s rest).plans = s.plans ∧
+      (wsLoop sortFn trunc s rest).status = (if trunc then Status.errStream else Status.ok) := by
+  intro rest
+  induction rest with
+  | nil =>
+    intro s pre _ hd _ _
+    simp only [wsLoop, List.append_nil]
+    exact ⟨hd, trivial, trivial⟩
+  | cons e rest ih =>
+    intro s pre hs hd hU hX
+    have hassoc : pre ++ e :: rest = (pre ++ [e]) ++ rest := by simp
+    rw [hassoc] at hs ⊢
+    have hlen : s.done.length < (s.done ++ [e]).length := by simp
+    cases hst : s.st with
+    | S =>
+      by_cases hk : e.kind = Kind.start
+      · simp only [wsLoop, @wsStep_S_start sortFn s e hst hk]
+        exact ih _ (pre ++ [e]) hs (by simp [addEv, hd]) (fun _ => hlen) (by intro h; cases h)
+      · simp only [wsLoop, @wsStep_S_other sortFn s e hst hk]
+        exact ih _ (pre ++ [e]) hs (by simp [addEv, hd]) (by intro h; simp [addEv, hst] at h)
+          (by intro h; simp [addEv, hst] at h)
+    | U =>
+      have ho := hU hst
+      by_cases hk : e.kind = Kind.stop
+      · simp only [wsLoop, @wsStep_U_stop sortFn s e hst hk]
+        exact ih _ (pre ++ [e]) hs (by simp [addEv, hd]) (by intro h; cases h) (by intro h; cases h)
+      · simp only [wsLoop, @wsStep_U_other sortFn s e hst hk]
+        exact ih _ (pre ++ [e]) hs (by simp [addEv, hd]) (by intro h; cases h)
+          (fun _ => by show s.opn < (s.done ++ [e]).length; omega)
+    | X =>
+      have ho := hX hst
+      by_cases hk : e.kind = Kind.stop
+      · have hsd : Sorted s.done := by
+          rw [hd]; exact (List.pairwise_append.1 (List.pairwise_append.1 hs).1).1
+        have hstep := @wsStep_X_stop sortFn s e hst hk
+        rw [exec_inPlace (inPlace_of_sorted ho hsd)] at hstep
+        simp only at hstep
+        simp only [wsLoop, hstep]
+        have := ih (addEv (sortedState s s.done s.ring none) s.done.length e) (pre ++ [e]) hs
+          (by simp [addEv, sortedState, hd]) (by intro h; cases h) (by intro h; cases h)
+        simpa [addEv, sortedState] using this
+      · simp only [wsLoop, @wsStep_X_other sortFn s e hst hk]
+        exact ih _ (pre ++ [e]) hs (by simp [addEv, hd]) (by intro h; simp [addEv, hst] at h)
+          (fun _ => by show s.opn < (s.done ++ [e]).length; omega)
+
+theorem winsort_sorted_noop (sortFn : List Ev → List Ev) (n : Nat) {evs : List Ev} (hne : evs ≠ [])
+    (hs : Sorted evs) (trunc : Bool) :
+    (winsort sortFn n evs trunc).out = evs ∧ (winsort sortFn n evs trunc).plans = [] ∧
+    (winsort sortFn n evs trunc).status = (if trunc then Status.errStream else Status.ok) := by
+  cases evs with
+  | nil => exact absurd rfl hne
+  | cons e t =>
+    have := wsLoop_sorted_noop sortFn trunc (e :: t) (WS.init n) [] (by simpa using hs) rfl
+      (by intro h; cases h) (by intro h; cases h)
+    have hp : (WS.init n).plans = [] := rfl
+    rw [hp] at this
+    simpa [winsort] using this
 
 end Ovni.Ovnisort
